@@ -460,7 +460,19 @@ fn gen_tx(rng: &mut Rng, w: &Weights, cfg: &Config, gw: &mut GenWorld, id: u32, 
         // ---- bridge operations: init, unlock, bridge transfer, ICS20 from bridge, admin ---------
         1 => {
             let fee_asset = gw.fee_asset(rng);
-            if gw.bridges.len() < 3 && (gw.bridges.is_empty() || rng.chance(1, 4)) {
+            if !gw.bridges.is_empty() && rng.chance(1, 9) {
+                // an account that already is a bridge tries to initialise itself again (other rollup,
+                // default sudo/withdrawer): must be refused whatever the parameters
+                signer = gw.some_bridge(rng, na);
+                let asset = rng.below(u64::from(N_ASSETS)) as u8;
+                actions.push(ActOp::InitBridge {
+                    rollup: rng.below(u64::from(N_ROLLUPS)) as u8,
+                    asset: if rng.chance(1, 2) { gw.bridges.get(&signer).map_or(asset, |b| b.0) } else { asset },
+                    fee_asset,
+                    sudo: if rng.chance(1, 3) { Some(rng.below(u64::from(na)) as u8) } else { None },
+                    withdrawer: if rng.chance(1, 3) { Some(rng.below(u64::from(na)) as u8) } else { None },
+                });
+            } else if gw.bridges.len() < 3 && (gw.bridges.is_empty() || rng.chance(1, 4)) {
                 signer = gw.plain_account(rng, na);
                 let asset = if w.ics20 > 0 {
                     // IBC workloads: bridges of source-zone and sink-zone assets alike
